@@ -812,6 +812,18 @@ class spawn(SpawnBase):
 
         return os.read(fd, 1000)
 
+    def __interact_log(self, data, direction):
+        '''This is used by the interact() method. interact() copies raw bytes;
+        the log files get the string type this object uses everywhere else.
+        '''
+
+        if self.encoding is not None:
+            if direction == 'read':
+                data = self._decoder.decode(data, final=False)
+            else:
+                data = data.decode(self.encoding, 'replace')
+        self._log(data, direction)
+
     def __interact_copy(
         self, escape_character=None, input_filter=None, output_filter=None
     ):
@@ -839,7 +851,7 @@ class spawn(SpawnBase):
                     break
                 if output_filter:
                     data = output_filter(data)
-                self._log(data, 'read')
+                self.__interact_log(data, 'read')
                 os.write(self.STDOUT_FILENO, data)
             if self.STDIN_FILENO in r:
                 data = self.__interact_read(self.STDIN_FILENO)
@@ -851,10 +863,10 @@ class spawn(SpawnBase):
                 if i != -1:
                     data = data[:i]
                     if data:
-                        self._log(data, 'send')
+                        self.__interact_log(data, 'send')
                     self.__interact_writen(self.child_fd, data)
                     break
-                self._log(data, 'send')
+                self.__interact_log(data, 'send')
                 self.__interact_writen(self.child_fd, data)
 
 
